@@ -66,7 +66,24 @@ def calibrate():
     _calibrated = True
 
 
+PICKLE_KEYS = {"astNodeIds", "id", "tags", "name", "language", "steps", "uri"}
+STEP_KEYS = {"astNodeIds", "id", "type", "text"}
+
+
+def shape(case, real, what):
+    """whatever the projection under test: a pickle is a pickle (exactly the message's fields, nothing null)"""
+    for i, p in enumerate(real):
+        if not isinstance(p, dict) or set(p) != PICKLE_KEYS:
+            raise Violation(case, "%s: pickle #%d has fields %r, a pickle has exactly %r" % (what, i, sorted(p) if isinstance(p, dict) else p, sorted(PICKLE_KEYS)))
+        for j, s_ in enumerate(p["steps"]):
+            if not isinstance(s_, dict) or not (STEP_KEYS <= set(s_) <= STEP_KEYS | {"argument"}) or any(v is None for v in s_.values()):
+                raise Violation(case, "%s: step #%d of pickle #%d has fields %r / null values: %r" % (what, j, i, sorted(s_) if isinstance(s_, dict) else s_, s_))
+        if any(v is None for v in p.values()):
+            raise Violation(case, "%s: pickle #%d carries a null field: %r" % (what, i, {k: v for k, v in p.items() if v is None}))
+
+
 def compare(case, real, ref, proj, what):
+    shape(case, real, what)
     if len(real) != len(ref):
         raise Violation(case, "%s: compiler produced %d pickles, expected %d" % (what, len(real), len(ref)))
     a, b = proj(real), proj(ref)
